@@ -139,6 +139,11 @@ Supported subset
               `name = re.compile(<constant>)` (a local compiled pattern), <it>.findall(s), s.split("<one char>")
               (pieces as "joined" values), a dict of local functions, and `return <function value>` for a function
               declared `returns_function` (translated applied to the declared extra parameters).
+              open_with_codecs: an argument that is True / False / a str (type autov: py_autoval, truthiness, a bool
+              constant assigned to it), truthiness of an optional str / int, int(x), min(a, b), a value / None
+              joined to an optional; the file system and the helpers it calls (os.path.getsize, the two
+              `with open(..., "rb") as test: raw = test.read(..)` statements - spec rewrites matched as whole
+              statements -, get_encoding, adhoc_test_encoding, io.open) are operations of the record world_ops.
   refused     a translated name that is bound a second time in its module / class (or assigned through
               Class.name / setattr / global) is refused: the translation would not be what runs.
   fragments   BlockTr (a block of a big method from an anchor statement to the end of its statement list, or its
@@ -169,7 +174,7 @@ STR, INT, BOOL, PAT, PATS, DYN, NONE, MATCH = "str", "int", "bool", "pat", "pats
 ITEM, KEYS, VERSION, OTABLE, OENTRY, OEX, FLOATV, REGEX, TPL, ARR, CURVE, SAMPLE, SECTION = \
     "item", "keys", "version", "otable", "oentry", "oex", "floatv", "regex", "tpl", "arr", "curve", "sample", "section"
 MATCHOBJ = "matchobj"
-FILE, JOINED, SECT = "file", "joined", "sect"
+FILE, JOINED, SECT, AUTOV, HANDLE = "file", "joined", "sect", "autov", "handle"
 PARSER = ("tuple", "str", "str", ("opt", "str"), ("opt", ("dict", "str", "str")))     # what SectionParser.__init__ sets
 SUBPAIR = ("tuple", "regex", "tpl")
 
@@ -204,7 +209,7 @@ SIMPLE_TYPE = {STR: "list N", INT: "Z", BOOL: "bool", PAT: "list frag", PATS: "l
                OTABLE: "list ((las_version * list N) * order_entry)", OENTRY: "order_entry",
                OEX: "(item_order * list (list N))", FLOATV: "F", REGEX: "re", TPL: "list tpl", ARR: "A", CURVE: "C",
                SAMPLE: "Smp", SECTION: "(bool * list (py_item V))",
-               MATCHOBJ: "option st", FILE: "list (list N)", JOINED: "list N", SECT: "S"}
+               MATCHOBJ: "option st", FILE: "list (list N)", JOINED: "list N", SECT: "S", AUTOV: "py_autoval", HANDLE: "H"}
 
 
 def is_type(ty, kind):
@@ -470,6 +475,23 @@ Definition pyo_tpl_eqb (a b : tpl) : bool :=
   end.
 Definition pyo_sub_eqb (a b : re * list tpl) : bool :=
   pyo_re_eqb (fst a) (fst b) && pyo_list_eqb pyo_tpl_eqb (snd a) (snd b).
+(* an argument that is True, False or a str (autodetect_encoding) *)
+Inductive py_autoval := PyTrue | PyFalse | PyStr (s : list N).
+Definition pyo_auto_truthy (a : py_autoval) : bool :=
+  match a with PyTrue => true | PyFalse => false | PyStr s => pyo_truthy_str s end.
+Definition pyo_opt_truthy {A : Type} (t : A -> bool) (o : option A) : bool := match o with Some x => t x | None => false end.
+(* what open_with_codecs asks of the file system and of its helpers (None: the call raises): os.path.getsize,
+   open(p, "rb").read(n), .read() / .read(n) by an optional n, get_encoding(auto, raw), adhoc_test_encoding(p),
+   io.open(p, "r", encoding=e, errors=x) *)
+Record world_ops (H : Type) := mk_world_ops {
+  w_getsize : list N -> option Z;
+  w_read : list N -> Z -> option (list N);
+  w_read_opt : list N -> option Z -> option (list N);
+  w_get_encoding : py_autoval -> list N -> option (option (list N));
+  w_adhoc : list N -> option (option (list N));
+  w_io_open : list N -> option (list N) -> list N -> option H }.
+Arguments w_getsize {H}. Arguments w_read {H}. Arguments w_read_opt {H}. Arguments w_get_encoding {H}.
+Arguments w_adhoc {H}. Arguments w_io_open {H}.
 (* f( **d) for a SectionParser method / parser object and the dict d read_header_line returned: the record of its
    name / unit / value / descr entries (None: one of them is missing; the methods read all four) *)
 Definition pyo_keys_of_dict (d : list (list N * list N)) : option py_keys :=
@@ -911,6 +933,12 @@ class Tr:
         if e.ty == DYN:
             self.uses_dyn = True
             return self.strict([e], lambda c: "dyn_truthy ops (%s)" % c[0], BOOL)
+        if e.ty == AUTOV:
+            return self.strict([e], lambda c: "pyo_auto_truthy (%s)" % c[0], BOOL)
+        if e.ty == OPT(STR):
+            return self.strict([e], lambda c: "pyo_opt_truthy pyo_truthy_str (%s)" % c[0], BOOL)
+        if e.ty == OPT(INT):
+            return self.strict([e], lambda c: "pyo_opt_truthy (fun z_ => negb (z_ =? 0)%%Z) (%s)" % c[0], BOOL)
         self.err(node, "truthiness of %s" % (e.ty,))
 
     def boolop(self, n, ops, value_context):
@@ -1032,6 +1060,8 @@ class Tr:
         opts = [t for t in tys if is_type(t, "opt")]
         if len(opts) == 1 and tys <= {opts[0], opts[0][1], NONE}:
             return opts[0]
+        if len(tys) == 2 and NONE in tys and not opts:
+            return OPT([t for t in tys if t != NONE][0])
         self.err(node, "a value has the types %s on different paths" % sorted(map(str, tys)))
 
     STR_IS = {"str": True, "int": False, "float": False, "bool": False, "slice": False}
@@ -1349,6 +1379,18 @@ class Tr:
                 self.err(n, "len of %s" % (a.ty,))
             if f.id == "str" and len(n.args) == 1:
                 return self.to_str(self.expr(n.args[0], env), n)
+            if f.id == "int" and len(n.args) == 1:
+                a = self.expr(n.args[0], env)
+                if a.ty == INT:
+                    return a
+                if a.ty == OPT(INT):
+                    return self.partial_op([a], lambda c: c[0], INT, exc="TypeError")        # int(None)
+                self.err(n, "int of %s" % (a.ty,))
+            if f.id == "min" and len(n.args) == 2:
+                a, b = self.expr(n.args[0], env), self.expr(n.args[1], env)
+                if a.ty != INT or b.ty != INT:
+                    self.err(n, "min of %s and %s" % (a.ty, b.ty))
+                return self.strict([a, b], lambda c: "Z.min (%s) (%s)" % (c[0], c[1]), INT)
             if f.id == "chr" and len(n.args) == 1 and isinstance(n.args[0], ast.Constant) and type(n.args[0].value) is int \
                     and 0 <= n.args[0].value < 0x110000:
                 return E(cstr(chr(n.args[0].value)), STR, const=chr(n.args[0].value))
@@ -1635,6 +1677,8 @@ class Tr:
                 return E("dyn_of_str ops %s" % (e.code if e.code.startswith(("(", "[")) or " " not in e.code else "(%s)" % e.code), DYN)
         if want == DYN and e.ty == FLOATV and not e.partial and "float_to_dyn" in self.spec:
             return E("%s (%s)" % (self.spec["float_to_dyn"], e.code), DYN)
+        if want == AUTOV and e.ty == BOOL and e.const is not None:
+            return E("PyTrue" if e.const else "PyFalse", AUTOV)
         if is_type(want, "sum") and e.ty in want[1:] and want[1] != want[2]:
             tag = "inl" if e.ty == want[1] else "inr"
             r = self.strict([e], lambda c: "%s (%s)" % (tag, c[0]), want)
@@ -1668,6 +1712,9 @@ class Tr:
         self._env_before = dict(env)
         env = dict(env)
         ty = e.ty
+        if name in env and env[name] == AUTOV and ty == BOOL:
+            e = self.coerce(e, AUTOV, node)
+            ty = e.ty
         if name in env and env[name] == DYN and ty != DYN:
             try:
                 e = self.coerce(e, DYN, node)      # a dyn variable stays dyn (str / int values are injected)
@@ -3299,6 +3346,25 @@ SPECS += [
                       "np.isfinite(x)": ("j_is_finite jops v_x", BOOL),
                       "int(x)": ("j_int jops v_x", DYN), "float(x)": ("j_float jops v_x", DYN),
                       "None": ("j_none jops", DYN)}),
+    dict(py="open_with_codecs", file="reader.py", cls=None, coq="py_open_with_codecs",
+         params=[("filename", STR), ("encoding", OPT(STR)), ("encoding_errors", STR), ("autodetect_encoding", AUTOV),
+                 ("autodetect_encoding_chars", OPT(INT))],
+         defaults={"encoding_errors": '"replace"', "autodetect_encoding": "True", "autodetect_encoding_chars": "4000"},
+         ret=TUPLE(HANDLE, OPT(STR)), locals={"nbytes": OPT(INT)},
+         extra_binders=[("{H : Type} (wops : world_ops H)", "wops")],
+         stmt_rewrites={'with open(filename, mode="rb") as test:\n    raw = test.read(nbytes_test)':
+                        "raw = read_bytes(filename, nbytes_test)",
+                        'with open(filename, mode="rb") as test:\n    if nbytes is None:\n        raw = test.read()\n'
+                        '    else:\n        raw = test.read(nbytes)':
+                        "raw = read_bytes_opt(filename, nbytes)"},
+         oracles={"os.path.getsize": dict(args=[STR], ret=INT, code="w_getsize wops", raises=True, exc="OSError"),
+                  "read_bytes": dict(args=[STR, INT], ret=STR, code="w_read wops", raises=True, exc="OSError"),
+                  "read_bytes_opt": dict(args=[STR, OPT(INT)], ret=STR, code="w_read_opt wops", raises=True, exc="OSError"),
+                  "get_encoding": dict(args=[AUTOV, STR], ret=OPT(STR), code="w_get_encoding wops", raises=True, exc="?"),
+                  "adhoc_test_encoding": dict(args=[STR], ret=OPT(STR), code="w_adhoc wops", raises=True, exc="OSError")},
+         const_exprs={"codecs.BOM_UTF8": ("[239; 187; 191]", STR),
+                      'io.open(filename, mode="r", encoding=encoding, errors=encoding_errors)':
+                      ("w_io_open wops v_filename v_encoding v_encoding_errors", HANDLE, "OSError")}),
     dict(py="define_line_splitter", file="reader.py", cls=None, coq="py_define_line_splitter",
          params=[("provisional_delimiter", STR)], returns_function=[("line", STR)], ret=LIST(JOINED),
          nested={"split_on_whitespace": ([("line", STR)], LIST(JOINED)), "split_on_tabs": ([("line", STR)], LIST(JOINED)),
